@@ -8,6 +8,7 @@ mod fam_auth;
 mod fam_bank;
 mod fam_curve;
 mod fam_fees;
+mod fam_bkr;
 mod fam_fx;
 mod fam_liq;
 mod fam_oracle;
@@ -79,6 +80,7 @@ fn main() {
                 "account" => fam_account::gen(&mut rng, n, &mut out),
                 "fees" => fam_fees::gen(&mut rng, n, &mut out),
                 "tx" => fam_tx::gen(&mut rng, n, &mut out),
+                "bkr" => fam_bkr::gen(&mut rng, n, &mut out),
                 "liq" => fam_liq::gen(&mut rng, n, &mut out),
                 "oracle" => fam_oracle::gen(&mut rng, n, &mut out),
                 "health" => fam_health::gen(&mut rng, n, &mut out),
@@ -117,6 +119,7 @@ fn main() {
                 "GATE" => mon_c04::run(&mut rng, n, &mut rep),
                 "LIQ" => mon_c05::run(&mut rng, n, &mut rep),
                 "TXS" => fam_tx::monitor(&mut rng, n, &mut rep),
+                "BKR" => fam_bkr::monitor(&mut rng, n, &mut rep),
                 "ORA" => fam_oracle::monitor(&mut rng, n, &mut rep),
                 "C12" => mon_c12::run(&mut rng, n, &mut rep),
                 "C13" => mon_c13::run(&mut rng, n, &mut rep),
